@@ -127,6 +127,25 @@ func cmdC01(r *RNG, n int, e *Emitter, args []string) {
 		case 1:
 			c = clip.Paths64{}
 		}
+		if i%10 == 7 {
+			// dense: many-vertex random polygons on a small grid (many crossings within a unit of each other, holes whose
+			// boundaries need the self-intersection repair)
+			G := r.Range(20, 60)
+			mk := func() clip.Path64 {
+				p := make(clip.Path64, 7+r.Intn(8))
+				for j := range p {
+					p[j] = clip.Point64{X: r.Range(-G, G), Y: r.Range(-G, G)}
+				}
+				return p
+			}
+			s, c = clip.Paths64{mk()}, clip.Paths64{mk()}
+			if r.Bool() {
+				s = append(s, mk())
+			}
+			ct = []clip.ClipType{clip.Union, clip.Union, clip.Xor, clip.Difference, clip.Intersection}[r.Intn(5)]
+			fr = []clip.FillRule{clip.EvenOdd, clip.NonZero, clip.NonZero, clip.Positive}[r.Intn(4)]
+			info = GenInfo{Grid: G, Kinds: []string{"dense"}}
+		}
 		emitC01(e, fmt.Sprint(i), s, c, ct, fr, r.Intn(3), info)
 	}
 }
